@@ -677,6 +677,29 @@ pub fn run_c08(rep: &mut Report, thorough: bool) {
         if thorough {
             crate::props::pairs::triple_histories(rep, &s.cfg, "triple-histories", &fr[..fr.len().min(110)]);
         }
+        // round 23: flows that agree in PART of their 4-tuple (addresses equal in the low or in the
+        // high 64 / 16 bits, ports equal / swapped / neighbouring), every ordered pair back to back:
+        // the SYN-ACK (cookie) and the verdict on a data segment of the second flow are those of a
+        // fresh process (a cache keyed by a folded or truncated tuple shows here)
+        {
+            let c6 = ["2001:db8::9", "2001:db9::9", "2001:db8::a", "fe80::9"];
+            let s6 = ["fe80::211:22ff:fe33:4455", "2001:db8:0:1:211:22ff:fe33:4455", "2001:db8:0:1:211:22ff:fe33:4456", "fe80::1:211:22ff:fe33:4455"];
+            let c4 = ["10.0.0.9", "11.0.0.9", "10.0.0.10", "10.0.1.9"];
+            let s4 = ["10.0.0.1", "11.0.0.1", "10.0.0.2", "10.0.1.1"];
+            let ports: [(u16, u16); 3] = [(40000, 443), (443, 40000), (40001, 443)];
+            let mut hf: Vec<crate::props::pairs::PFrame> = Vec::new();
+            for (cs, ss) in [(&c4, &s4), (&c6, &s6)] {
+                for c in cs.iter() {
+                    for sv in ss.iter() {
+                        for (sp, dp) in ports {
+                            let f = Flow { cmac: MAC_CLI, smac: MAC_SRV, cip: Ip::parse(c), sip: Ip::parse(sv), cport: sp, sport: dp };
+                            hf.push(crate::props::pairs::pf(&format!("syn {}:{}>{}:{}", c, sp, sv, dp), f.tcp(7, 0, F_SYN, b"")));
+                        }
+                    }
+                }
+            }
+            crate::props::pairs::pair_histories(rep, &Cfg::base(), "pair-histories-tuple-parts", &hf);
+        }
         // the responder's own replies fed back (no address lists, so that a frame addressed to the
         // client's address is still for the responder)
         for (tag, f) in s.flows.iter().take(2) {
